@@ -24,6 +24,8 @@ DROPPED = ['the generic lambda `range` of WaitGroup::InsertRange is abstracted b
            'IntrusivePtr<TimedWaiter> local in TimedWait: its destructor is inserted as an explicit DecRef before each return (recipe rule)']
 ASSUMPTIONS = ['documented rule: Add is only called while the count is non-zero; every Sub(n) is matched by earlier accounting (n <= count)',
                'Reset() is only called at quiescence (documented)']
+# real-code drivers that exercise what this unit proves (thorough tier: sanity run on the tree under check)
+DRIVERS = [('wait_group.cpp', [], 'default')]
 
 COMMON = r'''
 #include "vf.h"
